@@ -28,9 +28,15 @@ def lookup (r : Registry) (k : String) : Option Plugin :=
   | [] => none
   | (k', p) :: rest => if k' = k then some p else lookup rest k
 
-/-- `registry[k] = p` -/
+/-- `registry[k] = p` as a Python dict does it: an existing key keeps its position and gets the new
+    value, a new key goes to the end (iteration = insertion order) -/
 def insert (r : Registry) (k : String) (p : Plugin) : Registry :=
-  (k, p) :: r.filter (fun e => e.1 ≠ k)
+  match r with
+  | [] => [(k, p)]
+  | (k', q) :: rest => if k' = k then (k, p) :: rest else (k', q) :: insert rest k p
+
+/-- `registry.keys()`: the keys in insertion order -/
+def keys (r : Registry) : List String := r.map (·.1)
 
 /-- key under which `add` always stores the plugin: f"{full_plugin_name(plugin)}{_id}" -/
 def fullKey (p : Plugin) (id : String) : String :=
@@ -49,7 +55,7 @@ inductive Out where
   | oks (warned : List Bool)           -- addInst: one flag per processed key
   | errDotted                          -- ValueError: '.' in short name
   | errDottedAfter (warned : List Bool) -- addInst aborted at a dotted key after some keys
-  | errUnknownFull (known : List String) -- set_plugin: not a registered full name
+  | errUnknownFull (known : List String) -- set_plugin: not a registered full name (dotted keys, insertion order)
   | found (p : Plugin)
   | notFound
   | names (ns : List String)
@@ -89,9 +95,10 @@ def step (r : Registry) : Op → Registry × Out
   | .addInst keys m n u => addInstLoop r m n keys u []
   | .setPlugin key full =>
     if hasDot key then (r, .errDotted)
-    else if !hasDot full then (r, .errUnknownFull (sortedKeys r true |>.filter hasDot))
+    -- the message lists `filter(lambda n: "." in n, registry.keys())`: dotted keys in insertion order
+    else if !hasDot full then (r, .errUnknownFull ((keys r).filter hasDot))
     else match lookup r full with
-      | none => (r, .errUnknownFull (sortedKeys r true |>.filter hasDot))
+      | none => (r, .errUnknownFull ((keys r).filter hasDot))
       | some p => (insert r key p, .done)
   | .get key =>
     match lookup r key with
@@ -508,6 +515,53 @@ def dispatchByName (accs : List Accessor) (convs : List ConvFn) (inferDefaults :
   | some f => dispatch accs inferDefaults f rs args isFile
   | none => .notModelled "no such function"
 
+/-! ### import-time registration (`base_registry.load_plugins`, called by `glotaran/__init__.py`)
+
+Nothing registers a plugin except the decorators `register_data_io` / `register_project_io` / `megacomplex`
+running when the module that defines the plugin class is imported.  `load_plugins()` walks
+`importlib.metadata.entry_points()` in the order importlib yields them and imports (`entry_point.load()`) every
+entry point whose group starts with `glotaran.plugins` — glotaran's own builtin modules are entry points of
+the `pyglotaran` distribution like any third-party plugin.  There is no `try`: an entry point whose import
+raises ends `load_plugins()` (and `import glotaran`) with that exception; what was registered before stays. -/
+
+/-- an entry point: its group, the registration calls importing its module makes (in order), and whether
+    the import then raises -/
+structure EntryPoint (α : Type) where
+  group : String
+  calls : List α
+  fails : Bool
+  deriving Repr
+
+/-- `group.startswith("glotaran.plugins")` -/
+def isPluginGroup (g : String) : Bool := "glotaran.plugins".toList.isPrefixOf g.toList
+
+/-- the registration calls `load_plugins()` causes, in order, and whether it ends with an exception -/
+def loadedCalls {α : Type} : List (EntryPoint α) → List α × Bool
+  | [] => ([], false)
+  | e :: es =>
+    if !isPluginGroup e.group then loadedCalls es
+    else if e.fails then (e.calls, true)
+    else ((e.calls ++ (loadedCalls es).1), (loadedCalls es).2)
+
+/-- `load_plugins()`; `deactivated` = `"DEACTIVATE_GTA_PLUGINS" in os.environ`.  Result: the registries, the
+    outcome of every registration call, whether an exception ended the loading. -/
+def loadPlugins (accs : List Accessor) (deactivated : Bool) (eps : List (EntryPoint (String × List Val)))
+    (rs : Registries) : Registries × List ApiOut × Bool :=
+  if deactivated then (rs, [], false)
+  else
+    let res := (loadedCalls eps).1.foldl
+      (fun (acc : Registries × List ApiOut) c => let o := callApi accs c.1 acc.1 c.2; (o.1, acc.2 ++ [o.2])) (rs, [])
+    (res.1, res.2, (loadedCalls eps).2)
+
+/-- one decorator call site of a builtin plugin module (table regenerated from the source) -/
+structure BuiltinReg where
+  attr : String            -- registry: "data_io" | "project_io" | "megacomplex"
+  module : String
+  cls : String
+  names : List String      -- the short names it registers, in order
+  literal : Bool           -- the names are literals in the source (otherwise `names` is empty)
+  deriving Repr, DecidableEq
+
 /-! ### driver -/
 open Glotaran.Proto
 
@@ -608,6 +662,19 @@ def driverStep (accs : List Accessor) (convs : List ConvFn) (exts : List ExtFn) 
     | some name, some args, some fs =>
       (st, showApiOut (dispatchByName accs convs inferDefaults name st.rs args (fun p => fs.contains p)))
     | _, _, _ => (st, "bad-op")
+  | [.atom "load", deact, .list eps] =>
+    -- eps: [[group, fails, [[function, [values]]…]]…]
+    match deact.bool?, eps.mapM (fun t => match t with
+        | .list [g, f, .list cs] => do
+          let calls ← cs.mapM (fun c => match c with
+            | .list [fn, .list vals] => do some ((← fn.str?), (← vals.mapM parseVal))
+            | _ => none)
+          some ({ group := (← g.str?), calls := calls, fails := (← f.bool?) } : EntryPoint (String × List Val))
+        | _ => none) with
+    | some d, some es =>
+      let res := loadPlugins accs d es st.rs
+      ({ st with rs := res.1 }, s!"loaded {showBool res.2.2} {showList (res.2.1.map (fun o => encodeStr (showApiOut o)))}")
+    | _, _ => (st, "bad-op")
   | [.atom "infer", p, isf, nte, af] =>
     match p.str?, isf.bool?, nte.bool?, af.bool? with
     | some path, some i, some n, some a =>
